@@ -152,9 +152,19 @@ PPL::MIP_Problem::MIP_Problem(const dimension_type dim,
                                 "cs contains strict inequalities.");
   }
   // Actually copy the constraints.
-  for (Constraint_System::const_iterator
-         i = cs.begin(), i_end = cs.end(); i != i_end; ++i) {
-    add_constraint_helper(*i);
+  try {
+    for (Constraint_System::const_iterator
+           i = cs.begin(), i_end = cs.end(); i != i_end; ++i) {
+      add_constraint_helper(*i);
+    }
+  }
+  catch (...) {
+    // The destructor will not be run: delete the copied constraints.
+    for (Constraint_Sequence::const_iterator
+           i = input_cs.begin(), i_end = input_cs.end(); i != i_end; ++i) {
+      delete *i;
+    }
+    throw;
   }
 
   PPL_ASSERT(OK());
